@@ -4,19 +4,28 @@ import common, dsutil
 from common import quiet
 
 PROP = 'C05'
-LEAN_MODULES = ['XyzProofs.Props.C05', 'XyzProofs.Refine.Reap', 'XyzProofs.Refine.Harvest']
+LEAN_MODULES = ['XyzProofs.Props.C05', 'XyzProofs.Refine.Reap', 'XyzProofs.Refine.Harvest', 'XyzProofs.Refine.StoreIO']
 THEOREMS = ['Harvest.c05_step', 'Harvest.c05_step_first', 'Harvest.c05_mem_eq_disk', 'Harvest.c05_never_dropped',
             'Harvest.c05_name_consistent', 'Harvest.c05_unsynced_block', 'Harvest.c05_expand_relabels',
             'Harvest.c05_drop_sel_only_dropped', 'Harvest.c05_unsynced_then_synced_counterexample',
             'Harvest.c05_save_merge_step',
             'Refine.autoAddExt_refines',
             'Harvest.hvLoadFull_refines', 'Harvest.hvSaveFull_refines', 'Harvest.hvAddDs_eq_spec', 'Harvest.hvAddDs_refines',
-            'Harvest.hvSaveFull_error_keeps_mem', 'Harvest.hvAddDs_merge_error_no_write']
+            'Harvest.hvSaveFull_error_keeps_mem', 'Harvest.hvAddDs_merge_error_no_write',
+            # save_merge_ds, delete_ds, full_ds, expand_dims / drop_sel, the harvest tails as translated (Refine/StoreIO.lean)
+            'Harvest.saveMergeDs_eq_spec', 'Harvest.saveMergeDs_refines', 'Harvest.saveMergeDs_default_engine',
+            'Harvest.hvDeleteDs_refines', 'Harvest.hvDeleteDs_backup', 'Harvest.hvFullDs_refines', 'Harvest.hvFullDs_mem',
+            'Harvest.hvExpandDims_eq_spec', 'Harvest.hvDropSel_eq_spec', 'Harvest.rewriteSpec_refines',
+            'Harvest.hvExpandDims_refines', 'Harvest.hvDropSel_refines', 'Harvest.hvDropSel_error_no_write',
+            'Harvest.hvHarvest_eq_addDs', 'Harvest.hvHarvestCombos_ellipsis', 'Harvest.hvHarvest_chunks',
+            'Harvest.hvHarvest_refines']
 ANCHORS = ['engineExt', 'extRuleSubstring', 'extAppendCount', 'saveDsExtends', 'loadDsExtends',
            'loadFullAccessExtended', 'loadFullIsfileExtended', 'saveFullExistsExtended', 'saveFullRemoveExtended',
            'deleteRemoveExtended', 'saveMergeExistsExtended', 'saveMergeLoadsWithEngine',
            'addDsTrue', 'addDsFalse', 'addDsNone', 'saveMergeTrue', 'saveMergeFalse', 'saveMergeNone',
-           'autoAddExt', 'hvLoadFull', 'hvSaveFull', 'hvAddDs']
+           'autoAddExt', 'hvLoadFull', 'hvSaveFull', 'hvAddDs',
+           'saveMergeDs', 'hvDeleteDs', 'hvFullDs', 'hvExpandDims', 'hvDropSel', 'hvHarvestCombos', 'hvHarvestCases',
+           'hvHarvestCombosChunks', 'hvHarvestCasesChunks']
 RULE = ("a case is a history of 1-8 operations on one data file: harvest_combos / harvest_cases / add_ds (Dataset or "
         "DataArray) over sub-grids and case lists of a 4x3 coordinate box (plus a third dimension after expand_dims), "
         "values from two versions of the function (conflicts) with NaN cells, int or float results, one or two "
